@@ -7,6 +7,7 @@ from .. import paths
 from ..core import FUNC, call_attr, calls_in, const, dotted, is_const, kwarg, norm, slice_parts, text, walk_local
 
 EXPLANATION = [
+    'C17.overflow-recovers: the overflow branch of HfpProtocol.feed resets self.buffer (a full buffer that only refuses data never empties again).',
     'C17.continuation-kept: the parse-failure branch of sdp.Server.on_pdu does not assign current_response(s): garbage between continuation requests does not cost the transaction.',
     'C17.unhandled-rejected: ChannelManager.on_control_frame sends a Command Reject on every path on which no handler was found.',
     'C17.ertm-sdu-start: EnhancedRetransmissionProcessor.on_pdu assigns the reassembly buffer for START / UNSEGMENTED I-frames and appends only for CONTINUATION / END.',
@@ -1289,7 +1290,26 @@ def continuation_kept(ctx):
         R.check(not w, rule, 'bumble.sdp.Server.on_pdu | parse failure keeps the state', 'current_response untouched', f'`{norm(w[0])[:50] if w else ""}` in the parse-failure branch: garbage sent in the middle of a continued transaction discards the rest of the response, the client\'s next (valid) continuation request is refused with INVALID_CONTINUATION_STATE', p.loc(w[0]) if w else p.loc(h))
 
 
+def overflow_recovers(ctx):
+    """A bounded line buffer that refuses data when it is full must give the space back: on the overflow path of
+    HfpProtocol.feed the buffer is emptied (or shortened) - a branch that only returns leaves a full buffer that refuses
+    every later chunk, also the line end that would have emptied it."""
+    R, p = ctx.r, ctx.p
+    rule = 'C17.overflow-recovers'
+    fn = p.find('bumble.hfp.HfpProtocol.feed')
+    if fn is None:
+        R.bad(rule, 'bumble.hfp.HfpProtocol.feed', 'anchor missing')
+        return
+    ifs = [i_ for i_ in walk_local(fn) if isinstance(i_, ast.If) and 'MAX_BUFFER_SIZE' in norm(i_.test) and 'self.buffer' in norm(i_.test)]
+    R.check(len(ifs) == 1, rule, 'bumble.hfp.HfpProtocol.feed | overflow test', 'one overflow branch', f'{len(ifs)} overflow branches', p.loc(fn))
+    for i_ in ifs:
+        resets = [s_ for s_ in ast.walk(i_) if isinstance(s_, ast.Assign) and dotted(s_.targets[0]) == 'self.buffer' and s_ is not i_]
+        in_branch = [s_ for s_ in resets if any(s_ is x for b in i_.body for x in ast.walk(b))]
+        R.check(bool(in_branch), rule, 'bumble.hfp.HfpProtocol.feed | overflow path', 'the buffer is reset on overflow', 'the overflow branch leaves the full buffer as it is: from then on every chunk is refused, including the line end that would have emptied it - no AT line is ever delivered again on that connection', p.loc(i_))
+
+
 RULES = [
+    ('C17.overflow-recovers', overflow_recovers),
     ('C17.continuation-kept', continuation_kept),
     ('C17.unhandled-rejected', unhandled_rejected),
     ('C17.ertm-sdu-start', ertm_sdu_start),
